@@ -69,6 +69,7 @@ def record_files(wd, tier, seed, traces):
 def account_files(c, results, pid, what):
     n = 0
     nontrivial = set()
+    drift = []
     for r in results:
         if r["kind"] == "summary":
             c.cov["evaluations"] += r.get("short_strings", 0)
@@ -84,10 +85,17 @@ def account_files(c, results, pid, what):
                             {"kind": "file-hex", "hex": r.get("hex"), "desc": r.get("desc")})
             elif v["prop"] == "SCAN" and pid == "C06" and not any(w["prop"] == "C06" for w in r["viol"]):
                 # the scanner cut the file differently from Scan.tla's prediction although every embedded
-                # stream's plaintext is in the container: C06 holds on this file, the model is out of date
-                c.defer_tool_error("the scanner's chunk list differs from the one Scan.tla predicts while every plaintext "
-                                   "is carried verbatim (%s) [%s]; the specification needs attention" % (
-                                       v["why"][:200], json.dumps(r.get("desc"))[:200]))
+                # stream's plaintext is in the container: C06 holds on this file
+                drift.append("%s [%s]" % (v["why"][:200], json.dumps(r.get("desc"))[:200]))
+    if drift:
+        c.cov.setdefault("scan_prediction_differs", []).extend(drift[:5])
+        if len(drift) >= 3:
+            # systematic: the model is out of date
+            c.defer_tool_error("the scanner's chunk list differs from the one Scan.tla predicts on %d files while every plaintext "
+                               "is carried verbatim (first: %s); the specification needs attention" % (len(drift), drift[0]))
+        else:
+            # isolated: bytes of one segment completing a candidate of another by accident (junk is random)
+            c.note("chunk list differs from the model's on %d of %d files (property holds on them): %s" % (len(drift), n, drift[0][:200]))
     c.cov["evaluations"] += n
     c.cov["distinct_nontrivial"] += len(nontrivial)
     c.cov.setdefault("cases", {})[what] = n
